@@ -266,6 +266,8 @@ class FuncContent:
         if self.__commands:
             if self.expanded_commands is not None:
                 for expanded_command in self.expanded_commands:
+                    if not expanded_command:
+                        continue  # a statement that expanded to nothing: there is nothing to prefix
                     if expanded_command.startswith("execute"):
                         expanded_command = expanded_command[len("execute") + 1 :]
                         self.command_strings.append(
